@@ -376,5 +376,13 @@ instance : Std.Associative Alg.f64.max :=
   ⟨by intro a b c
       cases a <;> cases b <;> cases c <;> simp [Alg.f64, F64.fmax] <;> omega⟩
 
+/-- `min` / `max` of a narrow binary format (float32, float16) are those of binary64: no rounding is involved -/
+instance (r : F64 → F64) : Std.Associative (Alg.narrowed r).min :=
+  ⟨by intro a b c
+      cases a <;> cases b <;> cases c <;> simp [Alg.narrowed, F64.fmin] <;> omega⟩
+instance (r : F64 → F64) : Std.Associative (Alg.narrowed r).max :=
+  ⟨by intro a b c
+      cases a <;> cases b <;> cases c <;> simp [Alg.narrowed, F64.fmax] <;> omega⟩
+
 end Aux
 end EkwVerif.Backend
